@@ -6,7 +6,11 @@ PID = "C09"
 MODULI = [progs.BN, progs.BN, progs.BLS, 65537, 251]
 
 
+PENDING = []
+
+
 def casegen(rnd):
+    if PENDING: return PENDING.pop()
     return blockgen.gen_case(rnd, MODULI)
 
 
@@ -119,7 +123,8 @@ def post(cov, cases, recs):
 
 
 def run(tier, seed):
-    return tracecheck.run(PID, tier, seed, {}, oracle, n_quick=150, n_thorough=3000, shrink_budget=4, variants=variants, casegen=casegen, post=post, mask=1 | 2 | 4 | 8)
+    PENDING[:] = list(reversed(blockgen.fixed_cases(progs.BN) + (blockgen.fixed_cases(65537) if tier != "quick" else [])))
+    return tracecheck.run(PID, tier, seed, {}, oracle, n_quick=150 + 3 * len(PENDING), n_thorough=3000 + 3 * len(PENDING), shrink_budget=4, variants=variants, casegen=casegen, post=post, mask=1 | 2 | 4 | 8)
 
 
 def replay(payload):
